@@ -14,6 +14,10 @@ TABLE += [
     dict(h="dec64_i16", fn="bytes::vec_u64_from_bytes", what="sign extension from 16 bits"),
     dict(h="dec64_i32", fn="bytes::vec_u64_from_bytes", what="sign extension from 32 bits"),
     dict(h="dec64_i64", fn="bytes::vec_u64_from_bytes", what="64-bit elements", tier="thorough"),
+    dict(h="dec128_i16", fn="bytes::vec_u128_from_bytes", what="128-bit reader: arbitrary byte strings <= 5 bytes as INT16: Ok iff length is a multiple of 2, sign extension to 128 bits", key="dec128|ragged-or-signext"),
+    dict(h="dec128_i8", fn="bytes::vec_u128_from_bytes", what="128-bit reader, INT8, <= 3 bytes", tier="thorough", key="dec128|ragged-or-signext"),
+    dict(h="dec128_i64", fn="bytes::vec_u128_from_bytes", what="128-bit reader, INT64, <= 9 bytes", tier="thorough", key="dec128|ragged-or-signext"),
+    dict(h="dec128_u128", fn="bytes::vec_u128_from_bytes", what="128-bit reader, UINT128, <= 17 bytes", tier="thorough", key="dec128|ragged-or-signext"),
 ]
 
 if __name__ == "__main__":
